@@ -490,11 +490,43 @@ fn devscale_ev(case: &Value, out: &mut Vec<Value>) {
     out.push(Value::Object(o));
 }
 
+/// Distances and their means on narrow integer arrays with more elements than the element type can count.
+fn devnarrow_ev(case: &Value, out: &mut Vec<Value>) {
+    let a = jints(&case["a"]);
+    let b = jints(&case["b"]);
+    let shape = shape_of(case, a.len());
+    let (l1, l2) = (lay_of(case, "lay1", &shape), lay_of(case, "lay2", &shape));
+    let mut o = case.as_object().unwrap().clone();
+    let n = a.len() as f64;
+    macro_rules! go { ($t:ty) => {{
+        let xa: Vec<$t> = a.iter().map(|&v| v as $t).collect();
+        let xb: Vec<$t> = b.iter().map(|&v| v as $t).collect();
+        let (pa, pb) = (l1.build(&xa, |_| 77 as $t), l2.build(&xb, |_| 55 as $t));
+        let (va, vb) = (l1.view(&pa), l2.view(&pb));
+        let gi = |r: Result<Result<$t, ndarray_stats::errors::MultiInputError>, ()>| -> i64 { match r { Ok(Ok(v)) => v as i64, _ => ERR_Q } };
+        let gf = |r: Result<Result<f64, ndarray_stats::errors::MultiInputError>, ()>, k: f64| -> i64 { match r { Ok(Ok(v)) if v.is_finite() => (v * k * 1024.0).round() as i64, _ => ERR_Q } };
+        o.insert("ceq".into(), json!(match guarded(|| va.count_eq(&vb)) { Ok(Ok(v)) => v as i64, _ => -1 }));
+        o.insert("cneq".into(), json!(match guarded(|| va.count_neq(&vb)) { Ok(Ok(v)) => v as i64, _ => -1 }));
+        o.insert("sq".into(), json!(gi(guarded(|| va.sq_l2_dist(&vb)))));
+        o.insert("l1".into(), json!(gi(guarded(|| va.l1_dist(&vb)))));
+        o.insert("linf".into(), json!(gi(guarded(|| va.linf_dist(&vb)))));
+        // n * mean_abs_err and n * mean_sq_err in units of 2^-10
+        o.insert("maen".into(), json!(gf(guarded(|| va.mean_abs_err(&vb)), n)));
+        o.insert("msen".into(), json!(gf(guarded(|| va.mean_sq_err(&vb)), n)));
+        // n * rmse^2
+        o.insert("rmse2n".into(), json!(match guarded(|| va.root_mean_sq_err(&vb)) { Ok(Ok(v)) if v.is_finite() => (v * v * n * 1024.0).round() as i64, _ => ERR_Q }));
+    }}; }
+    match jstr(case, "ty", "i8") { "i8" => go!(i8), "i16" => go!(i16), _ => go!(i32) }
+    o.insert("shape".into(), json!(shape));
+    out.push(Value::Object(o));
+}
+
 pub fn run(case: &Value, _params: &Params, out: &mut Vec<Value>) {
     let ev = jstr(case, "ev", "");
     let ty = jstr(case, "ty", "f64");
     if ev == "devnan" { return devnan_ev(case, out); }
     if ev == "devscale" { return devscale_ev(case, out); }
+    if ev == "devnarrow" { return devnarrow_ev(case, out); }
     match ev {
         "summ" => match ty { "f32" => summ_float::<f32>(case, out), "f64" => summ_float::<f64>(case, out), _ => summ_int(case, out) },
         "corr" => match ty { "f32" => corr_ev::<f32>(case, out), _ => corr_ev::<f64>(case, out) },
@@ -580,6 +612,16 @@ pub fn gen(seed: u64, count: usize, tier: &str, params: &Params) -> Vec<Value> {
                         // the variance with ddof = 0 does not change when all weights are scaled by a power of two
                         let wexp: i64 = if d == 0 { if f32ty { *rng.pick(&[0i64, 0, -60, 40]) } else { *rng.pick(&[0i64, 0, -80, -200, 60]) } } else { 0 };
                         let bexp = if f32ty { -1 } else { *rng.pick(&[-1i64, -1, 10, 20]) };
+                        // weights whose reciprocal is inexact (w * (1 / w) != 1 in binary floating point: 41, 47, 49, 55, 98, 103, 107) on data
+                        // offset by 2^26 / 2^30 (f32: 2^11): a mean that starts one ulp off the first observation shows up as x^2 * eps
+                        if rng.chance(1, 5) && r.len() <= 4 {
+                            let r: Vec<i64> = r.iter().map(|&v| v.clamp(-4, 4)).collect();
+                            let w: Vec<i64> = (0..wl).map(|_| *rng.pick(&[41i64, 47, 49, 55, 98, 103, 107])).collect();
+                            cases.push(json!({"ev": "summ", "stat": stat, "ty": ty, "r": r, "w": w, "S": 4, "WS": 1, "d": d, "wexp": 0, "bexp": if f32ty { 11 } else { *rng.pick(&[26i64, 30]) }, "huge0": false,
+                                              "qe": if f32ty { 5 } else { 7 }, "tol": 2, "shape": shape, "axis": axis, "lay1": lay1, "lay2": lay2,
+                                              "wlay": *rng.pick(&["plain", "rev", "step"])}));
+                            continue;
+                        }
                         cases.push(json!({"ev": "summ", "stat": stat, "ty": ty, "r": r, "w": w, "S": 4, "WS": 1, "d": d, "wexp": wexp, "bexp": bexp, "huge0": huge0,
                                           "qe": if f32ty { 6 } else { 12 }, "tol": 2, "shape": shape, "axis": axis, "lay1": lay1, "lay2": lay2,
                                           "wlay": *rng.pick(&["plain", "rev", "step"])}));
@@ -597,6 +639,8 @@ pub fn gen(seed: u64, count: usize, tier: &str, params: &Params) -> Vec<Value> {
                         // scale by an exact power of two: skewness and kurtosis are scale-invariant, mu_p scales by 2^(p*sexp)
                         let sexp: i64 = if bexp >= 0 { 0 } else if f32ty { *rng.pick(&[0i64, 0, 24, -28]) } else { *rng.pick(&[0i64, 0, 60, 180, -180]) };
                         let sexp = if (stat == "moment" || stat == "moments") && p as i64 * sexp.abs() > 900 { 0 } else if (stat == "moment" || stat == "moments") && f32ty && p as i64 * sexp.abs() > 100 { 0 } else { sexp };
+                        // orders 0 and 1 are the constants 1 and 0 for all finite data: also where the sum of the observations overflows
+                        let (r, sexp, bexp) = if (stat == "moment" || stat == "moments") && p <= 1 && rng.chance(1, 3) { (r.iter().map(|&v| v.max(1)).collect::<Vec<i64>>(), if f32ty { 126 } else { 1022 }, -1) } else { (r, sexp, bexp) };
                         cases.push(json!({"ev": "summ", "stat": stat, "ty": ty, "r": r, "w": [], "S": 1, "WS": 1, "p": p, "bexp": bexp, "sexp": sexp,
                                           "qe": if f32ty { qe.min(6) } else { qe }, "tol": if p <= 3 && !f32ty { 1 } else { 2 }, "shape": shape, "axis": 0, "lay1": lay1, "lay2": lay2}));
                     }
@@ -743,6 +787,18 @@ pub fn gen(seed: u64, count: usize, tier: &str, params: &Params) -> Vec<Value> {
                 let mut b = b;
                 if inf_case { let k = rng.below(n as u64) as usize; if rng.chance(1, 3) { a[k] = 97; b[k] = 97; } else { a[k] = 98; } }
                 cases.push(json!({"ev": "devnan", "a": a, "b": b, "shape": shape, "lay1": lay1, "lay2": lay2}));
+            }
+            "dev" if rng.chance(1, 12) => {
+                // narrow integer types holding more elements than the type can count (130..400 elements of i8, 200..400 of i16 / i32), with
+                // so few and so small differences that every distance fits the type
+                let ty = *rng.pick(&["i8", "i8", "i16", "i32"]);
+                let n = if ty == "i8" { rng.range(130, 400) } else { rng.range(200, 400) } as usize;
+                let shape = random_shape(&mut rng, n);
+                let (lay1, lay2) = two_lays(&mut rng, &shape);
+                let a: Vec<i64> = (0..n).map(|_| rng.range(-3, 3)).collect();
+                let mut b = a.clone();
+                for _ in 0..rng.range(0, 6) { let k = rng.below(n as u64) as usize; b[k] = a[k] + rng.range(-2, 2); }
+                cases.push(json!({"ev": "devnarrow", "ty": ty, "a": a, "b": b, "shape": shape, "lay1": lay1, "lay2": lay2}));
             }
             "dev" if rng.chance(1, 8) => {
                 // operands scaled by an exact power of two far towards either end of the range (floats; squares of the differences
